@@ -42,26 +42,33 @@ pub fn encode_case(acc: &mut Acc, s: &dyn Subject, v: &Val) -> Option<(Box<dyn A
     }
 }
 
-/// the reference encoding of `v` in which some tuple and enum positions (map entries included) come from a writer one to three
-/// evolution steps ahead: version byte n, a header, chunk 0 with the elements, then chunks this reader knows nothing about
+/// the reference encoding of `v` as a foreign writer may legally produce it: some tuple and enum positions (map entries
+/// included) come from a writer one to three evolution steps ahead (version byte n, a header, chunk 0 with the elements,
+/// then chunks this reader knows nothing about), some sequences are in the unknown-length form
 fn newer_tuple_encoding(ctx: &Ctx, tag: u64, id: &str, idx: u64, ty: &Ty, v: &Val) -> Option<Vec<u8>> {
-    if !ty.any(&mut |t| matches!(t, Ty::Tuple(_) | Ty::Map(_, _) | Ty::Enum(_)), &mut Vec::new()) {
+    if !ty.any(&mut |t| matches!(t, Ty::Tuple(_) | Ty::Map(_, _) | Ty::Enum(_) | Ty::Seq(_) | Ty::Set(_) | Ty::Array(_, _)), &mut Vec::new()) {
         return None;
     }
     let mut r1 = ctx.rng_for(tag ^ 0x7E, id, idx);
     let mut r2 = ctx.rng_for(tag ^ 0x7F, id, idx);
-    let mut any = false;
-    let mut choose = || r1.chance(1, 4);
+    let any = std::cell::Cell::new(false);
+    let mut choose = || {
+        let u = r1.chance(1, 3);
+        if u {
+            any.set(true);
+        }
+        u
+    };
     let mut newer = || {
         if r2.chance(1, 2) {
-            any = true;
+            any.set(true);
             1 + r2.below(3) as u32
         } else {
             0
         }
     };
     let b = ref_encode_newer_tuples(ty, v, &mut choose, &mut newer).ok()?;
-    if any {
+    if any.get() {
         Some(b)
     } else {
         None
